@@ -2676,7 +2676,10 @@ func (m *Msg) hasAlt() bool {
 // References:
 //   - https://datatracker.ietf.org/doc/html/rfc2046#section-5.1.3
 func (m *Msg) hasMixed() bool {
-	return m.pgptype == 0 && ((len(m.parts) > 0 && len(m.attachments) > 0) || len(m.attachments) > 1)
+	// an attachment next to anything else (a body part, an embed or another attachment) needs
+	// the multipart/mixed container: without it, a message that has embeds and attachments but
+	// no body part would write all files one after the other into a single top-level entity
+	return m.pgptype == 0 && (((len(m.parts) > 0 || len(m.embeds) > 0) && len(m.attachments) > 0) || len(m.attachments) > 1)
 }
 
 // hasSMIME determines if the Msg should be signed with S/MIME.
